@@ -72,6 +72,9 @@ def build(tier, seed):
         for d in DATA:
             cases.append({'kind': 'lay', 'lay': i, 'data': d})
     cases.append({'kind': 'multi'})
+    # data of other scales: everything the estimator reports is relative to the scale of the fluctuations
+    for d in ('white', 'ar1', 'alt'):
+        cases.append({'kind': 'scale', 'data': d})
     # call history: observables on configuration lists that are easily confused (same first / last / number of configurations / gap,
     # different holes) analysed one after the other in one process, in both orders, alone and as one replica among two
     for d in DATA:
@@ -297,6 +300,40 @@ def run_case(case):
         else:
             acc.ok(('seq-cov-alias', d), True, 'sequence:cov-alias')
         acc.sample({'kind': 'sequence', 'groups': groups, 'data': d, 'orders': 'every permutation of each group'})
+    elif kind == 'scale':
+        d = case['data']
+        lays = [{'A|r1': enlarge(alpha.CFG['c12'], 4)}, {'A|r1': enlarge(alpha.CFG['irr'], 3), 'A|r2': enlarge(alpha.CFG['c8'], 3)}]
+        for li, lay in enumerate(lays):
+            base, samples, cfgs = alpha.make_obs(pe, lay, ('c02scale', li, d), d)
+            for sname, (mult, offset) in {'1e-9': (1e-9, 0.0), '1e-13': (1e-13, 0.0), '1e9': (1e9, 0.0), 'mean 1e6, fluctuations 1e-3': (1e-2, 1e6), 'mean 250, fluctuations 1e-6': (1e-5, 250.0),
+                                          'mean -1e9, fluctuations 1': (10.0, -1e9)}.items():
+                names = sorted(lay)
+                o = pe.Obs([mult * samples[n] + offset for n in names], names, idl=[alpha.idl_carrier(cfgs[n]) for n in names])
+                for pars in (PARAMS[0], PARAMS[1], PARAMS[4], PARAMS[7]):
+                    for fft in (True, False):
+                        sub = dict(case, lay=li, scale=sname, pars=pars, fft=fft)
+                        st, txt, info = analyse_and_compare(pe, o, pars, fft, 'kw')
+                        if st == 'fail':
+                            acc.fail('gamma-scale:' + info, sub, 'data scaled to %s (%s, layout %d, %s, fft=%s): %s' % (sname, d, li, pars, fft, txt))
+                        elif st == 'skip':
+                            acc.skip(info)
+                        else:
+                            acc.ok(('scale', li, d, sname, repr(pars), fft), True, 'scale:' + info)
+        # covariance inputs with a tiny variance, alone and next to Monte-Carlo data
+        m = alpha.make_obs(pe, lays[0], ('c02scale-m', d), d)[0]
+        for val, err in ((3e-9, 4e-10), (1.0, 1e-9), (2.5e-12, 1e-13)):
+            t = pe.cov_Obs(val, err ** 2, 'cvtiny')
+            for nm, x in (('input', t * 1.0), ('product', m * t), ('sum', 1e-9 * m + t)):
+                for pars in (PARAMS[0], PARAMS[4]):
+                    sub = dict(case, what=nm, value=val, error=err, pars=pars)
+                    st, txt, info = analyse_and_compare(pe, x, pars, True, 'kw')
+                    if st == 'fail':
+                        acc.fail('gamma-scale:covariance-input:' + info, sub, 'covariance input %g +- %g (%s, %s): %s' % (val, err, nm, pars, txt))
+                    elif st == 'skip':
+                        acc.skip(info)
+                    else:
+                        acc.ok(('scale-cov', d, nm, val, repr(pars)), True, 'scale:covariance-input')
+        acc.sample(dict(case, scales=['1e-9', '1e-13', '1e9', 'mean 1e6 / 1e-3', 'mean 250 / 1e-6', 'mean -1e9 / 1']))
     elif kind == 'multi':
         # several ensembles, covariance inputs, per-ensemble parameters
         lays = alpha.layouts(tier)
